@@ -14,9 +14,9 @@ package main
 import (
 	"crypto/sha256"
 	"encoding/hex"
+	"encoding/json"
 	"fmt"
 	"os"
-	"sort"
 	"strconv"
 	"strings"
 	"time"
@@ -38,9 +38,28 @@ type shard struct {
 	sweeps  int // extra cases: one layout family on a world of its own
 }
 
+type shardJSON struct {
+	ID      int    `json:"id"`
+	Variant string `json:"variant"`
+	MsgMax  int    `json:"msg_max"`
+	Route   string `json:"route"`
+	Persist bool   `json:"world_kept_across_streams"`
+	From    int    `json:"first_stream"`
+	To      int    `json:"end_stream"`
+	Sweeps  int    `json:"sweeps"`
+}
+
 func (s shard) MarshalJSON() ([]byte, error) {
-	return []byte(fmt.Sprintf(`{"id":%d,"variant":%q,"msg_max":%d,"route":%q,"world_kept_across_streams":%v,"streams":"%d..%d"}`,
-		s.id, s.variant, s.msgMax, s.route, s.persist, s.from, s.to-1)), nil
+	return json.Marshal(shardJSON{s.id, s.variant, s.msgMax, s.route, s.persist, s.from, s.to, s.sweeps})
+}
+
+func (s *shard) UnmarshalJSON(b []byte) error {
+	var j shardJSON
+	if err := json.Unmarshal(b, &j); err != nil {
+		return err
+	}
+	*s = shard{id: j.ID, variant: j.Variant, msgMax: j.MsgMax, route: j.Route, persist: j.Persist, from: j.From, to: j.To, sweeps: j.Sweeps}
+	return nil
 }
 
 func (s shard) args() map[string]string {
@@ -277,6 +296,7 @@ func runStream(c *vkit.Ctx, sh shard, w *world, sc *soloCache, st *stream, first
 		vs := compareResult("s1", kinds, ls, ob.res, want)
 		for _, v := range vs {
 			bad++
+			c.Event("finding_occurrences:"+v.fp, 1)
 			wit := map[string]any{"stage": 1, "shard": sh, "stream": st.idx, "position_in_stream": pos, "stream_length": len(st.seq),
 				"connections": st.nConn, "batch_max": st.batch, "line_kind": ls.kind, "line_len": len(ls.data), "line": lineWitness(ls.data),
 				"pool": ob.res.pool, "detail": v.detail, "history_note": historyNote(sh, st, pos)}
@@ -508,7 +528,7 @@ func minimise(c *vkit.Ctx, sh shard, st *stream, pos int, fp string) map[string]
 // ---------------------------------------------------------------------------------------------------------------
 
 func stage1Shards(c *vkit.Ctx) []shard {
-	nStreams := c.N(600, 8000)
+	nStreams := c.N(600, 6000)
 	per := 25
 	var out []shard
 	for id, from := 0, 0; from < nStreams; id, from = id+1, from+per {
@@ -536,13 +556,4 @@ func stage1Shards(c *vkit.Ctx) []shard {
 		out = append(out, sh)
 	}
 	return out
-}
-
-func sortedEventKeys(m map[string]int) []string {
-	ks := make([]string, 0, len(m))
-	for k := range m {
-		ks = append(ks, k)
-	}
-	sort.Strings(ks)
-	return ks
 }
